@@ -44,11 +44,33 @@ type tsState struct {
 	preds  map[string]bool
 	defers []tsDefer
 	pub    map[string]bool // tokens (local allocs) that have been published to a shared table
+	ent    map[string]string // ownership (E9): token → "B" bound handle, "N" nil, "R" released but still stored
+	unb    map[string]bool   // token's table entry has been deleted on this path
+	file   map[string]bool   // token's File has been set on this path
+	pend   map[ssa.Value]bool // handles obtained from Dirent.Create / FileSys.Attach not yet bound or released
 	notes  []string
 }
 
+func newTsState() *tsState {
+	return &tsState{held: map[string]bool{}, cells: map[ssa.Value]string{}, preds: map[string]bool{}, pub: map[string]bool{},
+		ent: map[string]string{}, unb: map[string]bool{}, file: map[string]bool{}, pend: map[ssa.Value]bool{}}
+}
+
 func (s *tsState) clone() *tsState {
-	n := &tsState{held: map[string]bool{}, cells: map[ssa.Value]string{}, preds: map[string]bool{}, pub: map[string]bool{}}
+	n := &tsState{held: map[string]bool{}, cells: map[ssa.Value]string{}, preds: map[string]bool{}, pub: map[string]bool{},
+		ent: map[string]string{}, unb: map[string]bool{}, file: map[string]bool{}, pend: map[ssa.Value]bool{}}
+	for k, v := range s.pend {
+		n.pend[k] = v
+	}
+	for k, v := range s.ent {
+		n.ent[k] = v
+	}
+	for k, v := range s.unb {
+		n.unb[k] = v
+	}
+	for k, v := range s.file {
+		n.file[k] = v
+	}
 	for k, v := range s.held {
 		n.held[k] = v
 	}
@@ -85,6 +107,21 @@ func (s *tsState) key() string {
 	}
 	sort.Strings(pk)
 	parts = append(parts, "P:"+strings.Join(pk, ","))
+	ek := []string{}
+	for k, v := range s.ent {
+		ek = append(ek, k+"="+v)
+	}
+	for k := range s.unb {
+		ek = append(ek, k+"=unb")
+	}
+	for k := range s.file {
+		ek = append(ek, k+"=file")
+	}
+	for k := range s.pend {
+		ek = append(ek, "pend:"+k.Name())
+	}
+	sort.Strings(ek)
+	parts = append(parts, "E:"+strings.Join(ek, ","))
 	dk := []string{}
 	for _, d := range s.defers {
 		dk = append(dk, d.kind+":"+d.tok+fmt.Sprint(d.pos))
@@ -108,6 +145,9 @@ type fnSummary struct {
 	requiresHeld  map[int]bool // parameter indices whose token must be held by the caller
 	acquiresTable bool         // may block on the lock of an object taken from the shared table
 	touchesLocks  bool
+	resultEnt     string       // returns-locked: ownership state of the result on success ("B" bound, "N" placeholder)
+	setsEnt       [2]int       // setter helper: param indices (object, value); {-1,-1} if not a setter
+	releases      map[int]bool // helper releases the handle of this parameter and stores nil (B → N)
 }
 
 type tsViolation struct {
@@ -131,6 +171,15 @@ type TS struct {
 	acc   map[string]*tsAccess // E7a obligations by key
 	rets  map[*ssa.Function][]tsRet
 	trace bool
+	// ownership (E9)
+	entryBound   map[*ssa.Function]bool
+	own          bool
+	fidOf        map[string]string // token → canonical key of the fid it was reserved/looked up under
+	reserved     map[string]bool   // tokens created as placeholders by a returns-locked constructor
+	consumed     int
+	releaseSites int
+	deleteSites  int
+	createSites  int
 }
 
 type tsRet struct {
@@ -139,10 +188,14 @@ type tsRet struct {
 	errNil  int // 1 nil const, -1 non-nil, 0 unknown
 	pos     token.Pos
 	private map[string]bool
+	ent     map[string]string
+	unb     map[string]bool
+	file    map[string]bool
 }
 
 func newTS(p *Prog, spec LockSpec) *TS {
-	return &TS{p: p, spec: spec, sums: map[*ssa.Function]*fnSummary{}, viol: map[string]tsViolation{}, acc: map[string]*tsAccess{}, rets: map[*ssa.Function][]tsRet{}}
+	return &TS{p: p, spec: spec, sums: map[*ssa.Function]*fnSummary{}, viol: map[string]tsViolation{}, acc: map[string]*tsAccess{}, rets: map[*ssa.Function][]tsRet{},
+		fidOf: map[string]string{}, reserved: map[string]bool{}, entryBound: map[*ssa.Function]bool{}}
 }
 
 func (ts *TS) isTokPtr(t types.Type) bool {
@@ -259,13 +312,16 @@ func (ts *TS) isPrivate(c *tsCtx, s *tsState, tok string, v ssa.Value) bool {
 // Analyze interprets fn from its entry. entryHeld lists parameter indices whose tokens are held on entry.
 func (ts *TS) Analyze(fn *ssa.Function, entryHeld map[int]bool) {
 	c := &tsCtx{fn: fn, fa: ts.p.FA(fn), rootFn: fn}
-	s := &tsState{held: map[string]bool{}, cells: map[ssa.Value]string{}, preds: map[string]bool{}, pub: map[string]bool{}}
+	s := newTsState()
 	c.entry = map[string]bool{}
 	for i := range entryHeld {
 		if i < len(fn.Params) {
 			t := ts.tokOf(c, s, fn.Params[i])
 			s.held[t] = true
 			c.entry[t] = true
+			if ts.own && ts.entryBound[fn] {
+				s.ent[t] = "B"
+			}
 		}
 	}
 	finals := ts.runBody(c, s, 0)
@@ -386,6 +442,29 @@ func (ts *TS) branch(c *tsCtx, s *tsState, ifi *ssa.If) (*tsState, *tsState) {
 		} else if isNilConst(b.X) {
 			other = b.Y
 		}
+		if other != nil {
+			if t, known, isNil := ts.ownRefineNil(c, s, other); t != "" {
+				evalTo := func(isNil bool) bool {
+					v := isNil == (b.Op == token.EQL)
+					if neg {
+						v = !v
+					}
+					return v
+				}
+				if known {
+					if evalTo(isNil) {
+						return s, nil
+					}
+					return nil, s
+				}
+				sn, sb := s.clone(), s.clone()
+				sn.ent[t], sb.ent[t] = "N", "B"
+				if evalTo(true) {
+					return sn, sb
+				}
+				return sb, sn
+			}
+		}
 		if other != nil && ts.isTokPtr(other.Type()) {
 			t := ts.tokOf(c, s, other)
 			if !strings.HasPrefix(t, "?") {
@@ -457,6 +536,7 @@ func (ts *TS) step(c *tsCtx, s *tsState, in ssa.Instruction, depth int) []*tsSta
 			s.cells[cell] = tsNIL
 			return []*tsState{s}
 		}
+		return []*tsState{ts.ownAlloc(c, s, x)}
 	case *ssa.Store:
 		if cell := ts.cellOf(c, x.Addr); cell != nil {
 			s = s.clone()
@@ -464,6 +544,18 @@ func (ts *TS) step(c *tsCtx, s *tsState, in ssa.Instruction, depth int) []*tsSta
 			return []*tsState{s}
 		}
 		ts.fieldAccess(c, s, x.Addr, in, "write")
+		if fa, ok := x.Addr.(*ssa.FieldAddr); ok && ts.isTokPtr(fa.X.Type()) {
+			switch fieldName(fa.X.Type(), fa.Field) {
+			case entField:
+				return []*tsState{ts.ownSetEnt(c, s, fa.X, x.Val, x.Pos())}
+			case "File":
+				if ts.own && !isNilConst(x.Val) {
+					s = s.clone()
+					s.file[ts.tokOf(c, s, fa.X)] = true
+					return []*tsState{s}
+				}
+			}
+		}
 	case *ssa.UnOp:
 		if x.Op == token.MUL {
 			ts.fieldAccess(c, s, x.X, in, "read")
@@ -513,6 +605,7 @@ func (ts *TS) runDefers(c *tsCtx, s *tsState, depth int) []*tsState {
 					ts.violate("lock-pairing/unlock-not-held", fmt.Sprintf("%s: deferred Unlock of %s", fnName(c.rootFn), shortTok(d.tok)), d.pos,
 						"deferred Unlock runs on a path where the lock is not held (held: "+st.heldList()+"): runtime fatal error 'unlock of unlocked mutex'")
 				}
+				ts.ownUnlock(c, st, d.tok, d.pos)
 				delete(st.held, d.tok)
 				next = append(next, st)
 			case "closure":
@@ -576,11 +669,14 @@ func (ts *TS) call(c *tsCtx, s *tsState, call *ssa.Call, depth int) []*tsState {
 			ts.violate("lock-pairing/unlock-not-held", fmt.Sprintf("%s: Unlock of %s", fnName(c.rootFn), shortTok(t)), call.Pos(),
 				"Unlock on a path where the lock is not held (held: "+s.heldList()+")")
 		}
+		ts.ownUnlock(c, s, t, call.Pos())
 		if c.entry[t] {
 			ts.violate("lock-pairing/callee-unlocks", fmt.Sprintf("%s: Unlock of caller-held %s", fnName(c.rootFn), shortTok(t)), call.Pos(), "a helper documented to run under the caller's lock releases it")
 		}
 		delete(s.held, t)
 		return []*tsState{s}
+	case "(*sync.Map).Delete", "(*sync.Map).CompareAndDelete":
+		return []*tsState{ts.ownDelete(c, s, call.Call.Args[1])}
 	case "(*sync.Map).LoadOrStore", "(*sync.Map).Store", "(*sync.Map).Swap":
 		// publication of a local object
 		for _, a := range call.Call.Args[1:] {
@@ -595,7 +691,7 @@ func (ts *TS) call(c *tsCtx, s *tsState, call *ssa.Call, depth int) []*tsState {
 	f := staticCallee(&call.Call)
 	if f == nil || !ts.p.InModule(f) {
 		ts.fsCall(c, s, call)
-		return []*tsState{s}
+		return []*tsState{ts.ownInvoke(c, s, call)}
 	}
 	sum := ts.summary(f)
 	if sum == nil {
@@ -608,6 +704,31 @@ func (ts *TS) call(c *tsCtx, s *tsState, call *ssa.Call, depth int) []*tsState {
 			ok := s.held[t] || ts.isPrivate(c, s, t, arg)
 			key := fmt.Sprintf("%s: call %s with %s's lock held", fnName(c.rootFn), fnName(f), shortTok(t))
 			ts.recordAccess(key, call.Pos(), ok, "helper that accesses the fid's state is called without the fid's lock (held: "+s.heldList()+")")
+		}
+	}
+	if ts.own {
+		if sum.setsEnt[0] >= 0 && sum.setsEnt[1] < len(call.Call.Args) {
+			s = ts.ownSetEnt(c, s, call.Call.Args[sum.setsEnt[0]], call.Call.Args[sum.setsEnt[1]], call.Pos())
+		}
+		for i := range sum.releases {
+			if i < len(call.Call.Args) {
+				t := ts.tokOf(c, s, call.Call.Args[i])
+				s = s.clone()
+				switch s.ent[t] {
+				case "R":
+					ts.violate("own/double-release", fmt.Sprintf("%s: %s on an already released entry", fnName(c.rootFn), fnName(f)), call.Pos(), "the entry bound to the fid is released twice on this path")
+				case "N":
+					ts.violate("own/release-of-nil", fmt.Sprintf("%s: %s on a nil entry", fnName(c.rootFn), fnName(f)), call.Pos(), "release helper is called for a fid whose entry is nil on this path (nil dereference)")
+				}
+				s.ent[t] = "N"
+				ts.releaseSites++
+			}
+		}
+		// use of a released entry as an argument
+		for _, a := range call.Call.Args {
+			if owner := ts.entOwner(a); owner != nil && s.ent[ts.tokOf(c, s, owner)] == "R" {
+				ts.violate("own/use-after-release", fmt.Sprintf("%s: released entry passed to %s", fnName(c.rootFn), fnName(f)), call.Pos(), "the entry is used after Clunk/Remove on this path")
+			}
 		}
 	}
 	if sum.acquiresTable && len(s.held) > 0 {
@@ -625,6 +746,19 @@ func (ts *TS) call(c *tsCtx, s *tsState, call *ssa.Call, depth int) []*tsState {
 		if res != nil {
 			t := ts.tokOf(c, okS, res)
 			okS.held[t] = true
+			if ts.own {
+				if sum.resultEnt != "" {
+					okS.ent[t] = sum.resultEnt
+				}
+				if sum.resultEnt == "N" {
+					ts.reserved[t] = true
+				}
+				for _, a := range call.Call.Args {
+					if isP9P(a.Type(), "Fid") {
+						ts.fidOf[t] = c.prefixlessSym(a)
+					}
+				}
+			}
 		} else {
 			ts.violate("lock-pairing/leak", fmt.Sprintf("%s: result of %s discarded", fnName(c.rootFn), fnName(f)), call.Pos(), "the locked fid returned by "+fnName(f)+" is discarded: it can never be unlocked")
 		}
@@ -720,7 +854,17 @@ func (ts *TS) atReturn(c *tsCtx, s *tsState, ret *ssa.Return) {
 	if c.fn != c.rootFn {
 		return // closure bodies: checked by the enclosing function's return
 	}
-	r := tsRet{held: map[string]bool{}, pos: ret.Pos(), private: map[string]bool{}}
+	ts.ownAtReturn(c, s, ret.Pos())
+	r := tsRet{held: map[string]bool{}, pos: ret.Pos(), private: map[string]bool{}, ent: map[string]string{}, unb: map[string]bool{}, file: map[string]bool{}}
+	for k, v := range s.ent {
+		r.ent[k] = v
+	}
+	for k := range s.unb {
+		r.unb[k] = true
+	}
+	for k := range s.file {
+		r.file[k] = true
+	}
 	for k := range s.held {
 		r.held[k] = true
 		if strings.Contains(k, "sym:alloc:") && !s.pub[k] {
@@ -760,7 +904,7 @@ func (ts *TS) summary(f *ssa.Function) *fnSummary {
 	if s, ok := ts.sums[f]; ok {
 		return s
 	}
-	sum := &fnSummary{requiresHeld: map[int]bool{}}
+	sum := &fnSummary{requiresHeld: map[int]bool{}, releases: map[int]bool{}, setsEnt: [2]int{-1, -1}}
 	ts.sums[f] = sum // break recursion
 	if f.Blocks == nil {
 		return sum
@@ -840,6 +984,7 @@ func (ts *TS) summary(f *ssa.Function) *fnSummary {
 	if res.Len() == 2 && ts.isTokPtr(res.At(0).Type()) && isErrorType(res.At(1).Type()) && locks > 0 {
 		sub := newTS(ts.p, ts.spec)
 		sub.sums = ts.sums
+		sub.own = ts.own
 		sub.Analyze(f, nil)
 		okAll, nSucc := true, 0
 		for _, r := range sub.rets[f] {
@@ -890,5 +1035,89 @@ func (ts *TS) summary(f *ssa.Function) *fnSummary {
 	if sharedLock && !sum.returnsLocked {
 		sum.acquiresTable = true
 	}
+	if ts.own {
+		ts.ownSummary(f, sum)
+	}
 	return sum
+}
+
+// ownSummary infers the ownership effects of helpers: a pure setter of <obj>.Ent,
+// and release helpers (B → N on a parameter).
+func (ts *TS) ownSummary(f *ssa.Function, sum *fnSummary) {
+	// setter: the only effect is `param_i.Ent = param_j`
+	nStores, nCalls := 0, 0
+	si, sj := -1, -1
+	releasesParam := map[int]bool{}
+	eachInstr(f, func(in ssa.Instruction) {
+		switch x := in.(type) {
+		case *ssa.Store:
+			nStores++
+			if fa, ok := x.Addr.(*ssa.FieldAddr); ok && ts.isTokPtr(fa.X.Type()) && fieldName(fa.X.Type(), fa.Field) == entField {
+				for i, p := range f.Params {
+					if fa.X == p {
+						si = i
+					}
+					if stripConv(x.Val) == p {
+						sj = i
+					}
+				}
+			}
+		case *ssa.Call:
+			nCalls++
+			if x.Call.IsInvoke() && releaseMethods[x.Call.Method.Name()] {
+				if owner := ts.entOwner(x.Call.Value); owner != nil {
+					for i, p := range f.Params {
+						if stripConv(owner) == p {
+							releasesParam[i] = true
+						}
+					}
+				}
+			}
+		}
+	})
+	if nStores == 1 && nCalls == 0 && si >= 0 && sj >= 0 {
+		sum.setsEnt = [2]int{si, sj}
+	}
+	for i := range releasesParam {
+		sub := newTS(ts.p, ts.spec)
+		sub.own = true
+		sub.sums = ts.sums
+		sub.entryBound[f] = true
+		sub.Analyze(f, map[int]bool{i: true})
+		ok := len(sub.rets[f]) > 0
+		for _, r := range sub.rets[f] {
+			for t, st := range r.ent {
+				if strings.HasSuffix(t, "sym:p:"+f.Params[i].Name()) && st != "N" {
+					ok = false
+					ts.violate("own/released-stays-bound", fnName(f)+": release helper stores nil after releasing", r.pos,
+						"the helper releases the entry of its fid but leaves it stored (state "+st+") on some path: the entry is released again later or used after release")
+				}
+			}
+		}
+		for k, v := range sub.viol {
+			if !strings.HasPrefix(k, "own/released-stays-bound|"+fnName(f)+": lock") {
+				ts.viol[k] = v
+			}
+		}
+		if ok {
+			sum.releases[i] = true
+		}
+	}
+	// returns-locked constructors: state of the result on success
+	if sum.returnsLocked {
+		st := ""
+		for _, r := range ts.rets[f] {
+			if r.errNil == 1 {
+				e := r.ent[r.res0]
+				if st == "" {
+					st = e
+				} else if st != e {
+					st = "?"
+				}
+			}
+		}
+		if st == "B" || st == "N" {
+			sum.resultEnt = st
+		}
+	}
 }
